@@ -7,7 +7,8 @@ tools/pins/Cxx.json = {"statements": {name: sha256 of the comment-stripped, whit
 `Theorem|Example name` up to the first `Proof.`}, "min_coq_cases": floor of model-evaluated cases of the
 quick tier}.  ./check fails (kind "pin") when a pinned statement is missing or different or when
 props/Cxx.v has a Theorem/Example that is not pinned, so a theorem cannot be deleted or weakened silently.
-The definitions a statement mentions (coq/model, coq/proofs) are not hashed: they are tied to the code by
+The entry "<file without comments and proof scripts>" pins everything else in props/Cxx.v (local definitions,
+imports, notations).  The definitions a statement mentions in coq/model, coq/proofs are not hashed: they are tied to the code by
 the correspondence shards and are under version control."""
 import sys, os, re, json, hashlib
 
@@ -15,9 +16,22 @@ ROOT = os.path.dirname(os.path.dirname(os.path.abspath(__file__)))
 
 
 def strip_comments(src):
-    out, depth, i = [], 0, 0
-    while i < len(src):
-        if src.startswith("(*", i):
+    """removes (* ... *) comments (nested); string literals are copied verbatim so that a "(*" inside a
+    string does not hide the rest of the file"""
+    out, depth, i, n = [], 0, 0, len(src)
+    while i < n:
+        if depth == 0 and src[i] == '"':
+            j = i + 1
+            while j < n:
+                if src[j] == '"':
+                    if j + 1 < n and src[j + 1] == '"':
+                        j += 2
+                        continue
+                    break
+                j += 1
+            out.append(src[i:j + 1])
+            i = j + 1
+        elif src.startswith("(*", i):
             depth += 1
             i += 2
         elif src.startswith("*)", i) and depth:
@@ -33,9 +47,13 @@ def strip_comments(src):
 def statements(prop):
     src = strip_comments(open(os.path.join(ROOT, "coq", "props", prop + ".v"), encoding="utf-8").read())
     res = {}
-    for m in re.finditer(r"^\s*(Theorem|Example)\s+([A-Za-z0-9_']+)(.*?)^\s*Proof\s*\.", src, re.M | re.S):
+    for m in re.finditer(r"^\s*(Theorem|Example)\s+([A-Za-z0-9_']+)(.*?)\bProof\b(?:\s+using[^.]*)?\s*\.", src, re.M | re.S):
         text = re.sub(r"\s+", " ", m.group(1) + " " + m.group(2) + m.group(3)).strip()
         res[m.group(2)] = hashlib.sha256(text.encode()).hexdigest()
+    # everything else in the file that a statement can depend on (local Definitions such as the witnesses
+    # of `_refuted` theorems, Imports, Notations, scopes): the whole file without comments and proof scripts
+    body = re.sub(r"\bProof\b.*?\b(Qed|Defined)\s*\.", "Proof. Qed.", src, flags=re.S)
+    res["<file without comments and proof scripts>"] = hashlib.sha256(re.sub(r"\s+", " ", body).strip().encode()).hexdigest()
     return res
 
 
